@@ -41,6 +41,11 @@ TERMS = [
     ('"é"i', "éÉ", ["é", "É"]),
     ('"ß"i', "ßs", ["ß"]),
     ('"ab"i', "abAB", ["ab", "Ab", "aB", "AB"]),
+    # characters whose encodings share a continuation byte under different lead bytes
+    ("/[€カ]/", "€カ", ["€", "カ"]),
+    ("/[中ก]+/", "中ก", ["中", "ก", "中ก"]),
+    ('"€" | "カ"', "€カ", ["€", "カ"]),
+    ("/[😊☃]/", "😊☃", ["😊", "☃"]),
 ]
 IGNORES = [('" "', " ", [" "]), ("/[ ]+/", " ", [" ", "  "]), ('"_"', "_", ["_"]), ("/[ _]/", " _", [" ", "_"])]
 
@@ -58,7 +63,7 @@ def gates(tier):
         "min_decided": {APIS[0]: 15000 * k, APIS[1]: 10000 * k},
         "shapes": {c: 5 * k for c in ["ignore", "no-ignore", "multibyte>=2", "ci-terminal", "regex-terminal", "ebnf:star", "ebnf:plus",
                                       "ebnf:opt", "ebnf:alt", "recursive-rule", "bytes:truncated", "accepted-samples",
-                                      "ci:multichar-case-mapping"]},
+                                      "ci:multichar-case-mapping", "names:suffix-style", "anonymous-literals"]},
         "min_hashseeds": 2,
     }
 
@@ -77,14 +82,27 @@ def gen_case(rng, spec):
             seen.add(t[0])
             tl.append(t)
     names = [f"T{i}" for i in range(len(tl))]
+    style = rng.random()
+    if style < 0.3:
+        # names of the form <name>_<n>: must not be confused with (terminal, automaton state) pairs of <name>
+        base = rng.choice(["T0", "X", "A"])
+        names = [base] + [f"{base}_{k}" for k in range(len(tl) - 1)]
+        rng.shuffle(names)
     ign = rng.choice(IGNORES) if rng.random() < 0.5 else None
     nrules = rng.randint(0, 2)
     rnames = ["start"] + [f"r{i}" for i in range(nrules)]
+
+    anon = []
+    if rng.random() < 0.3:
+        # anonymous literals: Lark names them after their text ("x" -> X, "x_1" -> X_1, "=" -> EQUAL)
+        anon = rng.sample(['"x"', '"x_1"', '"x_2"', '"="', '"x_0"'], rng.randint(2, 3))
 
     def item(d):
         r = rng.random()
         if d > 0 and r < 0.2:
             s = "(" + alt(d - 1) + ")"
+        elif anon and r < 0.4:
+            s = rng.choice(anon)
         elif r < 0.75:
             s = rng.choice(names)
         else:
@@ -118,8 +136,15 @@ def gen_case(rng, spec):
     text = "\n".join(lines) + "\n"
     chars = sorted({c for t in tl for c in t[1]})
     rng.shuffle(chars)
-    alphabet = sorted(set(chars[:3]) | ({ign[1][0]} if ign else set()) | {"q"})
-    return {"text": text, "alphabet": alphabet, "examples": {nm: t[2] for nm, t in zip(names, tl)} | ({"WS": ign[2]} if ign else {}),
+    extra = set()
+    if anon:
+        extra = set(rng.sample(["x", "_", "1", "="], 2))
+    alphabet = sorted(set(chars[: 3 - (1 if anon else 0)]) | extra | ({ign[1][0]} if ign else set()) | {"q"})
+    examples = {nm: t[2] for nm, t in zip(names, tl)} | ({"WS": ign[2]} if ign else {})
+    for a in anon:
+        lit = a.strip('"')
+        examples[{"x": "X", "x_1": "X_1", "x_2": "X_2", "x_0": "X_0", "=": "EQUAL"}[lit]] = [lit]
+    return {"text": text, "alphabet": alphabet, "examples": examples,
             "maxlen": 3 if spec.get("tier") == "quick" else 4, "sseed": rng.randrange(1 << 30)}
 
 
@@ -193,6 +218,10 @@ def run_case(case, ctx):
         feats.add("regex-terminal")
     if "ß" in text:
         feats.add("ci:multichar-case-mapping")
+    if any(("_" in nm) for nm in O.T if nm != "WS" and not nm.startswith("__")):
+        feats.add("names:suffix-style")
+    if any(nm in ("X", "X_0", "X_1", "X_2", "EQUAL") for nm in O.T) and '"x' in text or '"="' in text:
+        feats.add("anonymous-literals")
     for tag, ch in (("ebnf:star", "*"), ("ebnf:plus", "+"), ("ebnf:opt", "?"), ("ebnf:alt", "|")):
         if any(ch in ln.split(": ", 1)[1] for ln in text.splitlines() if ln and ln[0] in "sr" and ": " in ln):
             feats.add(tag)
@@ -238,13 +267,25 @@ def run_case(case, ctx):
                         cut = bs[:kk] + bs[kk + 1 :]
                         if cut not in bwant:
                             extra.add(cut)
-                for s, t in itertools.combinations(accepted[:8], 2):
+                for s, t in itertools.permutations(accepted[:8], 2):
                     bs, bt = s.encode("utf-8"), t.encode("utf-8")
                     if len(bs) >= 2 and len(bt) >= 2:
-                        x = bs[:1] + bt[1:]
-                        if x not in bwant:
-                            extra.add(x)
-                for x in sorted(extra)[:150]:
+                        for kk in range(1, min(len(bs), len(bt))):
+                            x = bs[:kk] + bt[kk:]
+                            if x not in bwant:
+                                extra.add(x)
+                # single characters of the alphabet spliced with each other, alone and after an accepted string
+                encs = [c.encode("utf-8") for c in alpha if len(c.encode("utf-8")) >= 2]
+                chars_all = {c for ex in case["examples"].values() for e in ex for c in e if len(c.encode("utf-8")) >= 2}
+                encs = sorted(set(encs) | {c.encode("utf-8") for c in chars_all})
+                for e1, e2 in itertools.permutations(encs, 2):
+                    if len(e1) == len(e2):
+                        for kk in range(1, len(e1)):
+                            sp = e1[:kk] + e2[kk:]
+                            for pre in [b""] + [a.encode("utf-8") for a in accepted[:3]]:
+                                if pre + sp not in bwant:
+                                    extra.add(pre + sp)
+                for x in sorted(extra)[:400]:
                     try:
                         dec = x.decode("utf-8")
                         bwant[x] = O.accepts(dec)
